@@ -1,5 +1,6 @@
 """C11 — null=X is exactly 'replace every NULL node by X', whatever else is configured."""
 import copy
+import re
 import json
 
 import common as C
@@ -66,8 +67,14 @@ def run(ctx):
             mode = "simple" if rnd == 0 else ctx.rng.choice(list(calls))
             ac = None if rnd == 0 else ctx.rng.choice([None, "*"])
             xname, x = ctx.rng.choice(XS)
-            base = R.parse_raw(st["sql"], dialect, calls=calls[mode], all_columns=ac)
-            got = R.parse_raw(st["sql"], dialect, calls=calls[mode], all_columns=ac, null=copy.deepcopy(x))
+            # "whatever else is configured": the rename map too (fmap= for parse, is_null= for the dialect entry points)
+            extra = {}
+            if rnd > 0 and ctx.rng.random() < 0.5:
+                fnames = sorted(set(w.lower() for w in re.findall(r"([A-Za-z_][A-Za-z_0-9]*)\s*\(", st["sql"])))[:6]
+                fm = {n: n + "_r" for n in fnames + ["missing", "exists", "not", "neg", "isnull", "decode"]}
+                extra = {("fmap" if dialect == "common" else "is_null"): fm}
+            base = R.parse_raw(st["sql"], dialect, calls=calls[mode], all_columns=ac, **extra)
+            got = R.parse_raw(st["sql"], dialect, calls=calls[mode], all_columns=ac, null=copy.deepcopy(x), **extra)
             rep.case("%s|%s|%s|%s|%s" % (st["sql"], dialect, mode, ac, xname), nontrivial="null" in st["sql"].lower())
             rep.count("origin", st["origin"])
             rep.count("x", xname)
@@ -92,7 +99,7 @@ def run(ctx):
                 rep.count("finding", key)
                 rep.finding(key, "parse(%r, null=%s, calls=%s) = %s ; expected %s" % (
                     st["sql"][:120], xname, mode, C.cdump(C.canon(got[1]))[:200], C.cdump(C.canon(want))[:200]),
-                    {"sql": st["sql"], "dialect": dialect, "calls": mode, "all_columns": ac, "x": xname})
+                    {"sql": st["sql"], "dialect": dialect, "calls": mode, "all_columns": ac, "x": xname, "extra": extra})
 
 
 def search(ctx):
@@ -105,8 +112,9 @@ def replay(ctx, p):
     m = R.m
     calls = {"simple": None, "normal": m.normal_op, "custom": custom_op}
     x = dict(XS)[p["x"]]
-    base = R.parse_raw(p["sql"], p["dialect"], calls=calls[p["calls"]], all_columns=p["all_columns"])
-    got = R.parse_raw(p["sql"], p["dialect"], calls=calls[p["calls"]], all_columns=p["all_columns"], null=copy.deepcopy(x))
+    extra = p.get("extra") or {}
+    base = R.parse_raw(p["sql"], p["dialect"], calls=calls[p["calls"]], all_columns=p["all_columns"], **extra)
+    got = R.parse_raw(p["sql"], p["dialect"], calls=calls[p["calls"]], all_columns=p["all_columns"], null=copy.deepcopy(x), **extra)
     print(base)
     print(got)
     if base[0] != "ok" or got[0] != "ok":
